@@ -104,10 +104,18 @@ class QueryJudge:
                         all(canon(o[1], case, self.ordered) == want for o in res['impl'][off_name]['outs']
                             if o[0] == 'rows') and self.known('C05-F1'):
                     continue
+                if cfg_name.startswith('on') and off_name in res['impl'] and mentions_flatten(case) and \
+                        all(canon(o[1], case, self.ordered) == want for o in res['impl'][off_name]['outs']
+                            if o[0] == 'rows') and self.known('C05-F2'):
+                    continue
                 self.violation(f'rows differ from the specification (caching {cfg_name}, evaluation {ev + 1})',
                                case, expected=want, observed=obs, model=model_obs,
                                cache_nonuniform=cfg['nonuniform'])
                 break
+
+
+def mentions_flatten(case):
+    return any(surface.cond_flats(c) for c in (case.get('cond') or []))
 
 
 def nontrivial_filter(case, res):
